@@ -21,9 +21,9 @@ impl PathMatcher {
 }
 
 impl Matcher for PathMatcher {
-    fn matches(&self, file_info: &WalkEntry, _: &mut MatcherIO) -> bool {
+    fn matches(&self, file_info: &WalkEntry, matcher_io: &mut MatcherIO) -> bool {
         let path = file_info.path().to_string_lossy();
-        self.pattern.matches(&path)
+        self.pattern.matches_or_report(&path, matcher_io)
     }
 }
 
